@@ -319,6 +319,9 @@ pub enum UReq {
     Rev(Vec<u8>),
     /// `slice.kmers::<K>()` over a sequence: items (bounded by n+2), agreement with windows(K)
     Iter(SeqSpec),
+    /// `kmers::<K>()` over a sequence rebuilt from a raw word image (`count` symbols): the packed
+    /// integers of the k-mers, stepped with next(), through fold, and through for_each
+    IterRaw(Vec<u64>, usize),
 }
 
 #[derive(Clone, Debug)]
@@ -357,6 +360,8 @@ pub enum URes {
     /// (to_rev, in-place rev, receiver after to_rev)
     Rev(KInfo, KInfo, KInfo),
     Iter(IterRes),
+    /// (by next, by fold, by for_each, k-mer == window for each item by next, last())
+    IterRaw(Vec<usize>, Vec<usize>, Vec<usize>, Vec<bool>, Option<usize>),
 }
 
 #[inline(never)]
@@ -398,6 +403,31 @@ fn kusize<A: Cm, const K: usize>(req: &UReq) -> R<URes> {
             let mut m = k;
             m.rev();
             URes::Rev(info(&t), info(&m), info(&k))
+        }
+        UReq::IterRaw(words, count) => {
+            let raw: Vec<usize> = words.iter().map(|w| *w as usize).collect();
+            let s = match Seq::<A>::from_raw(*count, &raw) {
+                Some(s) => s,
+                None => return Err(Fail { site: "harness".into(), msg: format!("from_raw({count}, {} words) returned None", raw.len()) }),
+            };
+            let n = s.len();
+            let by_next: Vec<Kmer<A, K>> = s.kmers::<K>().take(n + 2).collect();
+            let by_fold: Vec<usize> = s.kmers::<K>().fold(vec![], |mut acc, k| {
+                if acc.len() < n + 2 {
+                    acc.push(usize::from(&k));
+                }
+                acc
+            });
+            let mut by_for_each: Vec<usize> = vec![];
+            s.kmers::<K>().for_each(|k| {
+                if by_for_each.len() < n + 2 {
+                    by_for_each.push(usize::from(&k));
+                }
+            });
+            let wins: Vec<&SeqSlice<A>> = s.windows(K).take(n + 2).collect();
+            let eq = by_next.iter().zip(wins.iter()).map(|(k, w)| *k == *w && *k == **w).collect();
+            let last = s.kmers::<K>().last().map(|k| usize::from(&k));
+            URes::IterRaw(by_next.iter().map(|k| usize::from(k)).collect(), by_fold, by_for_each, eq, last)
         }
         UReq::Iter(spec) => {
             let b = build(&sy, spec)?;
